@@ -28,6 +28,42 @@ def stoi(text):
     return v
 
 
+def h_strtol(it, f, st, a):
+    """strtol(nptr, endptr, base) as C defines it (base 10 here): blanks, sign, digits; *endptr = first unused character; ERANGE beyond long"""
+    p, endp = a[0], a[1]
+    if not isinstance(p, P) or p.r not in it.mem:
+        raise AnalysisBroken('strtol: the text argument is not a region the replay holds (%s)' % f.loc(st['i']))
+    cells = it.mem[p.r]
+    i = p.o
+    ch = lambda k: chr(cells[k]) if k < len(cells) and isinstance(cells[k], int) and cells[k] else ''
+    while ch(i) in (' ', '\t', '\n', '\r', '\f', '\v') and ch(i):
+        i += 1
+    j = i
+    sign = 1
+    if ch(j) in ('+', '-') and ch(j):
+        sign = -1 if ch(j) == '-' else 1
+        j += 1
+    k = j
+    while ch(k).isdigit():
+        k += 1
+    v = 0
+    end = p.o
+    if k > j:
+        v = sign * int(''.join(ch(x) for x in range(j, k)))
+        end = k
+        if not (-(1 << 63) <= v < (1 << 63)):
+            v = (1 << 63) - 1 if v > 0 else -(1 << 63)
+            it.mem.setdefault('errno', [0])[0] = 34      # ERANGE
+    if isinstance(endp, P) and endp.r in it.mem and not isinstance(it.mem[endp.r], dict):
+        it.mem[endp.r][endp.o] = P(p.r, end)
+    return v
+
+
+def libc_hooks(it):
+    it.mem.setdefault('errno', [0])
+    it.hooks.update({'strtol': h_strtol, '__errno_location': lambda it_, f, st, a: P('errno', 0)})
+
+
 def reference(history, arg):
     """('run', line) | ('error',)"""
     sub = arg[1:]
@@ -56,6 +92,7 @@ def one(prog, history, arg):
     hooks.update({'stoi': lambda it, f, st, a: stoi(str(a[0])), 'send': lambda it, f, st, a: sent.append(str(a[-1]) if isinstance(a[-1], S) else it.to_text(a[-1])) or 1})
     it = minterp.Interp(prog, {'str:empty': [0]}, hooks=hooks, inline=('*',), max_steps=200000)
     it.string_mode = True
+    libc_hooks(it)
     it.noeval = set(getattr(it, 'noeval', ())) | {'LogInfo', 'LogWarn', 'LogDbg'}
     sess = {'__cls__': 'SessionContext', '__open__': True, 'history': [S(h) for h in history], 'curr_input': S(''), 'token': 0, 'wp_conn': 0}
     conn = {'__cls__': 'Connection', '__open__': True}
